@@ -298,8 +298,9 @@ def oracle0(c, o):
         starts.append(pos + pre)
         pos += cols[j] + exc + len(b.line_vc_char)
     has_header = c["header"] is not None
-    top = 1 if draws(b, "t") else 0
-    mid = 1 if draws(b, "c") else 0
+    widths = [x + exc for x in cols]
+    top = 1 if draws(b, "t", widths) else 0
+    mid = 1 if draws(b, "c", widths) else 0
     idx = top
     rows_txt = ([c["header"]] if has_header else []) + c["rows"]
     for ri, k in enumerate(lpr):
@@ -325,10 +326,12 @@ def oracle0(c, o):
     return None
 
 
-def draws(b, which):
-    chars = {"t": (b.line_ht_char, b.corner_tl_char, b.crossing_t_char, b.corner_tr_char),
-             "c": (b.line_hc_char, b.crossing_l_char, b.crossing_c_char, b.crossing_r_char)}[which]
-    return any(x.strip() for x in chars)
+def draws(b, which, widths):
+    """a border line is written unless it is blank (a line character repeated zero times draws nothing)"""
+    lc, l, c, r = {"t": (b.line_ht_char, b.corner_tl_char, b.crossing_t_char, b.corner_tr_char),
+                   "c": (b.line_hc_char, b.crossing_l_char, b.crossing_c_char, b.crossing_r_char)}[which]
+    line = l + c.join(lc * w for w in widths) + r
+    return bool(line.strip())
 
 
 def nontrivial_key(c, o):
